@@ -409,7 +409,7 @@ impl HasChildren for XmlAttribute {
     }
 
     fn insert_by_id(&self, value: Rc<XmlItem>, id: Option<usize>) -> error::Result<Rc<XmlItem>> {
-        if self.ancestor(value.id()) {
+        if self.ancestor(value.id()) || value.held_by_declaration() {
             return Err(error::Error::InvalidHierarchy);
         }
 
@@ -2159,7 +2159,7 @@ impl HasChildren for XmlElement {
     }
 
     fn insert_by_id(&self, value: Rc<XmlItem>, id: Option<usize>) -> error::Result<Rc<XmlItem>> {
-        if value.id() == self.id() || self.ancestor(value.id()) {
+        if value.id() == self.id() || self.ancestor(value.id()) || value.held_by_declaration() {
             return Err(error::Error::InvalidHierarchy);
         }
 
@@ -3178,6 +3178,18 @@ impl XmlItem {
             XmlItem::Text(v) => v.borrow().parent_id(),
             XmlItem::Unexpanded(v) => v.borrow().parent_id(),
             XmlItem::Unparsed(v) => v.borrow().entity().borrow().parent_id(),
+        }
+    }
+
+    /// Whether the item is held by a declaration of the document type, as the value items of an
+    /// attribute default are. Such an item stays where it is.
+    fn held_by_declaration(&self) -> bool {
+        match self.parent_id().and_then(|id| self.context().node(id)) {
+            Some(parent) => !matches!(
+                &*parent,
+                XmlItem::Attribute(_) | XmlItem::Document(_) | XmlItem::Element(_)
+            ),
+            None => false,
         }
     }
 
